@@ -2,6 +2,7 @@
 This module contains the implementation for the SNMPv3 message-processing model
 """
 
+from time import monotonic
 from typing import Any, Awaitable, Callable, Dict, Optional, Union
 
 from x690.types import Integer, OctetString
@@ -95,6 +96,7 @@ class V3MPM(MessageProcessingModel[V3EncodingResult, TV3SecModel]):
             self.disco = await self.security_model.send_discovery_message(
                 self.transport_handler
             )
+            self.disco_at = monotonic()
         security_engine_id = self.disco.authoritative_engine_id
 
         if engine_id == b"":
@@ -116,10 +118,14 @@ class V3MPM(MessageProcessingModel[V3EncodingResult, TV3SecModel]):
         )
 
         if self.disco is not None:
+            # The remote engine only accepts messages whose engine-time is
+            # within 150 seconds of its own clock (RFC 3414 section 3.2). Keep
+            # our notion of its time running since the discovery.
+            elapsed = int(monotonic() - getattr(self, "disco_at", monotonic()))
             self.security_model.set_engine_timing(
                 self.disco.authoritative_engine_id,
                 self.disco.authoritative_engine_boots,
-                self.disco.authoritative_engine_time,
+                self.disco.authoritative_engine_time + elapsed,
             )
 
         snmp_version = 3
